@@ -5,6 +5,7 @@
 // "twist by omega^i, then a textbook cyclic radix-2 DFT of size m" with cosq/sinq twiddles.
 #include <quadmath.h>
 
+#include <map>
 #include "hcommon.h"
 extern "C" {
 #include "spqlios/cplx/cplx_fft_internal.h"
@@ -545,7 +546,9 @@ STREAM(ff_tables) {
         std::string verdict = "ok";
         if (av.size() != tlen) verdict = "FAIL table length bookkeeping";
         fprintf(out.ops, "ff angles %s %zu", OPN[layout][inv], m);
-        double worst = 0;
+        double worst = 0, worst_pair = 0;
+        bool above_one = false;
+        std::map<int64_t, std::pair<double, double>> by_exp;   // exponent -> (|cos error|, |sin error|) in units of u
         for (size_t i = 0; i < av.size() && i < tlen; i++) {
           double e = av[i].x * 4.0 * (double)m;
           if (e != floor(e)) verdict = "FAIL angle is not a multiple of 1/(4m)";
@@ -555,12 +558,20 @@ STREAM(ff_tables) {
           q128 ex = av[i].kind == 0 ? w.re : av[i].kind == 1 ? w.im : av[i].kind == 2 ? -w.im : -w.re;
           double err = (double)(fabsq((q128)table[i] - ex) * scalbnq(1, 53));
           if (err > worst) worst = err;
+          auto& pe = by_exp[ei];
+          if (av[i].kind == 0 || av[i].kind == 3) pe.first = std::max(pe.first, err); else pe.second = std::max(pe.second, err);
+          if (fabs(table[i]) > 1.0) above_one = true;
         }
-        if (worst > 4.0 && verdict == "ok") {
-          char buf[100];
-          snprintf(buf, sizeof buf, "FAIL table entry error %.3f u (u = 2^-53)", worst);
+        // the hypothesis of the rounding-bound theorems (C06Err, C01Err, C02Err, C16Err): for every exponent the stored
+        // PAIR (cos, sin) is within 3.5u of the exact root as a complex number, and no stored entry exceeds 1 in magnitude
+        for (auto& kv : by_exp) worst_pair = std::max(worst_pair, hypot(kv.second.first, kv.second.second));
+        if ((worst > 4.0 || worst_pair > 3.5 || above_one) && verdict == "ok") {
+          char buf[160];
+          snprintf(buf, sizeof buf, "FAIL table accuracy: worst entry error %.3f u, worst (cos,sin) pair error %.3f u (theorem hypothesis: 3.5 u), |entry| > 1: %d (u = 2^-53)", worst, worst_pair, (int)above_one);
           verdict = buf;
         }
+        std::string keyp = std::string("max_pair_centi_u_") + OPN[layout][inv];
+        if (out.counters[keyp] < (long)(worst_pair * 100)) out.counters[keyp] = (long)(worst_pair * 100);
         std::string key = std::string("max_centi_u_") + OPN[layout][inv];
         if (out.counters[key] < (long)(worst * 100)) out.counters[key] = (long)(worst * 100);
         out.count("entries", (long)tlen);
